@@ -101,3 +101,35 @@ func H_C11_sr_bias() { c11srBias(false) }
 // H_C11_sr_bias_evap: same with an arbitrary net evaporation rate.
 //vsym:prop=C11 tier=quick ints=int floats=real timeout=120
 func H_C11_sr_bias_evap() { c11srBias(true) }
+
+// c11srFull: one timestep through storageRouting itself (so that Klimit, Qlimit and Koffset are
+// the ones the model derives) with a non-zero inflow bias AND a non-linear relation m = 1/2:
+// non-negativity and the water balance.
+func c11srFull(withEvap bool) {
+	vsym.Summarise("FindRoot")
+	inflow, lateral := vsym.Float64("inflow"), vsym.Float64("lateral")
+	prevIn, prevOut, prevS := vsym.Float64("prevInflow"), vsym.Float64("prevOutflow"), vsym.Float64("prevStorage")
+	k, area, dead, dt := vsym.Float64("k"), vsym.Float64("area"), vsym.Float64("deadStorage"), vsym.Float64("dt")
+	bias := vsym.Float64("bias")
+	vsym.Assume(inflow >= 0 && lateral >= 0 && prevS >= 0 && prevOut >= 0 && prevIn >= 0)
+	vsym.Assume(k > 0 && k <= 1000000 && area >= 0 && dead >= 0 && dt >= 1 && dt <= 86400)
+	vsym.Assume(bias >= 0.001 && bias <= 0.5)
+	rain, evap := 0.0, 0.0
+	if withEvap {
+		rain, evap = c12nn("rain"), c12nn("evap")
+	}
+	o, st := rtOut(1), rtOut(1)
+	fs, _, fo := storageRouting(c12one(inflow), c12one(lateral), c12one(rain), c12one(evap), prevS, prevIn, prevOut, bias, k, 0.5, area, dead, dt, o, st)
+	vsym.Reach("returned")
+	outflow, storage := o.Get1(0), st.Get1(0)
+	vsym.Assert(outflow >= 0, "outflow-nonnegative")
+	vsym.Hunt(storage >= 0, "storage-nonnegative")
+	vsym.Assert(fs == storage && fo == outflow, "final-states-are-last-storage-and-outflow")
+	evapFlux := math.Min(math.Max(0, prevS)/dt+inflow, area*(evap-rain)/dt)
+	tol := 2 * massBalanceLimit
+	vsym.HuntNear(storage-prevS, (inflow+lateral-outflow-evapFlux)*dt, tol, 1e-9, "water-balance-closes")
+}
+
+// H_C11_sr_bias_sqrt: m = 1/2 with inflow bias in [0.001, 0.5], no evaporation.
+//vsym:prop=C11 tier=quick ints=int floats=real timeout=120
+func H_C11_sr_bias_sqrt() { c11srFull(false) }
